@@ -206,7 +206,7 @@ E_Done ==
 (***************************************************************************)
 (* Kernel backend: one openat2 per attempt, atomic in the kernel, which    *)
 (* may answer EAGAIN when a rename raced with a ".." step                  *)
-(* (openat2.rs:94-121); the one-shot open does a single attempt.           *)
+(* (openat2.rs:57-75 one-shot open, 104-133 resolve).                     *)
 (***************************************************************************)
 KFlags == [follow |-> ~WantNoFollow,
            dir    |-> (op.op = "open" /\ op.odir),
@@ -225,8 +225,8 @@ K_Openat2 ==
     /\ \/ Finish(KAnswer(fs)) /\ UNCHANGED retries
        \/ \* EAGAIN: only when something raced
           /\ natk > 0
-          /\ IF op.op = "open" THEN Finish(Err("EAGAIN")) /\ UNCHANGED retries
-             ELSE IF retries + 1 >= KRetry THEN Finish(Safety) /\ retries' = retries + 1
+          \* resolve and (since fix 235d3ae) the one-shot open both retry KRetry times, then report a safety violation
+          /\ IF retries + 1 >= KRetry THEN Finish(Safety) /\ retries' = retries + 1
              ELSE retries' = retries + 1 /\ UNCHANGED <<pc, res>>
     /\ UNCHANGED <<cur, exp, rem, ntrav, nxt, part, rootPath>>
 
